@@ -10,7 +10,7 @@ S="$(mktemp -d /tmp/qsim-mut-XXXXXX)"
 trap 'rm -rf "$S"' EXIT
 mkdir -p "$S/src-tree" "$S/verif"
 rsync -a --exclude target --exclude .git /repo/ "$S/src-tree/"
-if ! (cd "$S/src-tree" && git init -q . && git apply --whitespace=nowarn "$PATCH"); then echo "MUTANT-RESULT $PROP patch-does-not-apply"; exit 3; fi
+if [ -s "$PATCH" ] && ! (cd "$S/src-tree" && git init -q . && git apply --whitespace=nowarn "$PATCH"); then echo "MUTANT-RESULT $PROP patch-does-not-apply"; exit 3; fi
 # the copy sees the committed known findings but writes evidence/replays into the scratch area
 cp "$VERIF_DIR/known_findings.json" "$S/verif/" 2>/dev/null
 # warm start: reuse the compiled dependencies
